@@ -1,7 +1,8 @@
 # shared helpers for setup.sh / check.sh (sourced)
 export GOFLAGS=-mod=mod GOPROXY=off GOSUMDB=off GOTOOLCHAIN=local
 export GOCACHE=${GOCACHE:-/root/.cache/go-build}
-VERIF_ROOT=${VERIF_ROOT:-/verif}
+# the tree this file belongs to (a snapshot of /verif run elsewhere must use its own shims and harness)
+VERIF_ROOT=${VERIF_ROOT:-$(cd "$(dirname "${BASH_SOURCE[0]}")/.." && pwd)}
 VERIF_SRC=${VERIF_SRC:-/repo}
 
 # prepare_scratch <dir>: instrumented copy of $VERIF_SRC with shims and harness in <dir>/src
